@@ -13,6 +13,10 @@ pub(crate) struct EvalContext {
 
 impl EvalContext {
     pub(crate) fn new() -> Self {
+        #[cfg(feature = "verif-hooks")]
+        if let Some(seed) = crate::verif_hooks::seed_override() {
+            return Self::with_seed(seed);
+        }
         let mut seed_bytes: [u8; 8] = Default::default();
         getrandom::getrandom(&mut seed_bytes).unwrap();
         let seed = u64::from_le_bytes(seed_bytes);
@@ -27,6 +31,8 @@ impl EvalContext {
     }
 
     pub(crate) fn with_seed(seed: u64) -> Self {
+        #[cfg(feature = "verif-hooks")]
+        crate::verif_hooks::log(crate::verif_hooks::Event::NewRun { seed });
         Self {
             vars: FramedMap::new(),
             alt_vars: FramedMap::new(),
@@ -64,6 +70,8 @@ impl EvalContext {
     }
 
     pub(crate) fn reset_random_seed(&mut self) {
+        #[cfg(feature = "verif-hooks")]
+        crate::verif_hooks::log(crate::verif_hooks::Event::Reset);
         self.rng = RefCell::new(StdRng::seed_from_u64(self.seed));
     }
 
@@ -71,6 +79,8 @@ impl EvalContext {
         &self,
         range: R,
     ) -> i64 {
+        #[cfg(feature = "verif-hooks")]
+        crate::verif_hooks::log(crate::verif_hooks::Event::GenDraw);
         self.rng.borrow_mut().gen_range(range)
     }
 
